@@ -28,6 +28,7 @@ import (
 	"fmt"
 	"io"
 	"math/rand"
+	"reflect"
 	"testing"
 	"time"
 
@@ -48,6 +49,7 @@ import (
 	"github.com/koordinator-sh/koordinator/apis/configuration"
 	"github.com/koordinator-sh/koordinator/apis/extension"
 	slov1alpha1 "github.com/koordinator-sh/koordinator/apis/slo/v1alpha1"
+	sloctrlconfig "github.com/koordinator-sh/koordinator/pkg/slo-controller/config"
 	"github.com/koordinator-sh/koordinator/pkg/slo-controller/noderesource/framework"
 	"github.com/koordinator-sh/koordinator/pkg/slo-controller/noderesource/plugins/batchresource"
 	"github.com/koordinator-sh/koordinator/pkg/util/sloconfig"
@@ -195,6 +197,13 @@ type c09rWorld struct {
 	c       ctrlclient.Client
 	r       *NodeResourceReconciler
 	cfg     *FakeCfgCache
+	// the controller's real config cache (fed with the slo-controller ConfigMap only when the configuration changes, as
+	// by ConfigMap events) and a second node with its own strategy overrides that is reconciled before the node under
+	// observation: what another node is configured with never shows in this node's figures
+	real    *sloctrlconfig.ColocationHandlerForConfigMapEvent
+	lastCfg string
+	useReal bool
+	decoy   bool
 	pre     c09rPre
 	created bool
 	pods    string // the pod set the fake API server currently holds (as JSON of inp.pods)
@@ -212,6 +221,7 @@ func c09rNewWorld(pre c09rPre) *c09rWorld {
 		Build()
 	cfg := &FakeCfgCache{available: true}
 	w := &c09rWorld{c: c, cfg: cfg, pre: pre}
+	w.real = sloctrlconfig.NewColocationHandlerForConfigMapEvent(c, *sloconfig.NewDefaultColocationCfg(), &record.FakeRecorder{})
 	w.r = &NodeResourceReconciler{
 		Client:          c,
 		cfgCache:        cfg,
@@ -421,6 +431,84 @@ func (w *c09rWorld) syncNodeMetric(ctx context.Context, in c09rIn, now time.Time
 	return w.c.Create(ctx, nm)
 }
 
+var c09rDecoys = []string{"n2", "n3"}
+
+// syncConfig delivers the slo-controller ConfigMap to the real config cache when the configuration differs from the
+// one delivered last. The real cache is used for this step only if it then hands out exactly the strategy of the step
+// (it merges with the defaults and keeps its previous content when it finds the new one invalid); otherwise the
+// package's FakeCfgCache is used as before.
+func (w *c09rWorld) syncConfig(s configuration.ColocationStrategy) {
+	hi := int64(97)
+	cfg := configuration.ColocationCfg{ColocationStrategy: s, NodeConfigs: []configuration.NodeColocationCfg{{
+		NodeCfgProfile:     configuration.NodeCfgProfile{Name: "decoy", NodeSelector: &metav1.LabelSelector{MatchLabels: map[string]string{"pool": "decoy"}}},
+		ColocationStrategy: configuration.ColocationStrategy{CPUReclaimThresholdPercent: &hi, MemoryReclaimThresholdPercent: &hi},
+	}}}
+	b, _ := json.Marshal(cfg)
+	if string(b) != w.lastCfg {
+		cm := &corev1.ConfigMap{ObjectMeta: metav1.ObjectMeta{Name: sloconfig.SLOCtrlConfigMap, Namespace: sloconfig.ConfigNameSpace},
+			Data: map[string]string{configuration.ColocationConfigKey: string(b)}}
+		w.real.SyncCacheIfChanged(cm)
+		got := w.real.GetCfgCopy()
+		want := *s.DeepCopy() // the cache merges with the defaults: an unset calculate policy becomes "usage", which is what unset means
+		def := sloconfig.DefaultColocationStrategy()
+		if want.CPUCalculatePolicy == nil {
+			want.CPUCalculatePolicy = def.CPUCalculatePolicy
+		}
+		if want.MemoryCalculatePolicy == nil {
+			want.MemoryCalculatePolicy = def.MemoryCalculatePolicy
+		}
+		w.useReal = w.real.IsCfgAvailable() && !w.real.IsErrorStatus() && got != nil && reflect.DeepEqual(got.ColocationStrategy, want)
+		w.lastCfg = string(b)
+		if !w.useReal {
+			w.lastCfg = ""
+		}
+	}
+	if w.useReal {
+		w.r.cfgCache = w.real
+		c09rViaRealCfg++
+	} else {
+		w.r.cfgCache = w.cfg
+	}
+}
+
+var c09rViaRealCfg int
+
+// reconcileDecoy reconciles the other nodes: n2 is selected by a node config and carries a strategy annotation, n3
+// carries the annotation only; both override most of the strategy
+func (w *c09rWorld) reconcileDecoy(ctx context.Context) error {
+	if !w.decoy {
+		big := c09rRL{CPU: 64000, Mem: 64 << 30}
+		for _, name := range c09rDecoys {
+			node := &corev1.Node{
+				ObjectMeta: metav1.ObjectMeta{Name: name, Labels: map[string]string{}, Annotations: map[string]string{
+					extension.AnnotationNodeColocationStrategy: `{"cpuReclaimThresholdPercent":96,"memoryReclaimThresholdPercent":95,"cpuCalculatePolicy":"usage","memoryCalculatePolicy":"usage","batchCPUThresholdPercent":100,"batchMemoryThresholdPercent":100,"degradeTimeMinutes":100000,"resourceDiffThreshold":0.9}`,
+				}},
+				Status: corev1.NodeStatus{Capacity: c09rRes(big), Allocatable: c09rRes(big)},
+			}
+			if name == c09rDecoys[0] {
+				node.Labels["pool"] = "decoy"
+			}
+			if err := w.c.Create(ctx, node); err != nil {
+				return err
+			}
+		}
+		w.decoy = true
+	}
+	for _, name := range c09rDecoys {
+		var err error
+		panicked, msg := vu.Protect(func() {
+			_, err = w.r.Reconcile(ctx, ctrl.Request{NamespacedName: types.NamespacedName{Name: name}})
+		})
+		if panicked {
+			return fmt.Errorf("panic: %s", msg)
+		}
+		if err != nil {
+			return err
+		}
+	}
+	return nil
+}
+
 // exec brings the world to in at time start+t, runs the real Reconcile and projects the node
 func (w *c09rWorld) exec(in c09rIn, t int64) (out vu.Ev, failure string) {
 	ctx := context.Background()
@@ -428,8 +516,14 @@ func (w *c09rWorld) exec(in c09rIn, t int64) (out vu.Ev, failure string) {
 	w.r.Clock = fakeclock.NewFakeClock(now)
 	batchresource.Clock = fakeclock.NewFakeClock(now)
 	w.cfg.cfg = configuration.ColocationCfg{ColocationStrategy: w.strategy(in)}
+	w.syncConfig(w.cfg.cfg.ColocationStrategy)
 	if err := w.syncNode(ctx, in); err != nil {
 		return nil, "driver: node: " + err.Error()
+	}
+	if w.useReal {
+		if err := w.reconcileDecoy(ctx); err != nil {
+			return nil, "driver: decoy node: " + err.Error()
+		}
 	}
 	if err := w.syncPods(ctx, in); err != nil {
 		return nil, "driver: pods: " + err.Error()
@@ -887,6 +981,6 @@ func TestVerifC09Reconcile(t *testing.T) {
 	for k := 0; k < n; k++ {
 		r.randomSegment(rng)
 	}
-	t.Logf("C09 reconcile: %d enumerated + %d random segments, %d reconciles, %d events; NodeMetric at reconcile: %v",
-		nEnum, r.rec.Segments()-nEnum, r.recons, r.rec.Events(), r.kinds)
+	t.Logf("C09 reconcile: %d enumerated + %d random segments, %d reconciles (%d with the real config cache and a second node), %d events; NodeMetric at reconcile: %v",
+		nEnum, r.rec.Segments()-nEnum, r.recons, c09rViaRealCfg, r.rec.Events(), r.kinds)
 }
